@@ -16,7 +16,8 @@ TECHNIQUE = ("Lean 4 theorems over an executable model of the immutable data pat
              "WriteBucketProxy(_v2), ReadBucketProxy, downloader Share and DownloadNode methods, and end-to-end uploads and "
              "downloads on an in-process grid with seeded delivery order; implementation-side monitor (downloaded bytes = "
              "uploaded bytes; downloader numbers = encoder numbers; reader's table = writer's table)")
-LEVEL_TEXT = ("upload_download proved for every non-empty plaintext, k, n, maxSeg, key, keystream, lawful codec and every "
+LEVEL_TEXT = ("upload_download_any_source proved for every uploadable keeping the IUploadable contract (Supplies + StableKey; "
+              "stale_key_breaks_roundtrip shows key stability is necessary); upload_download proved for every non-empty plaintext, k, n, maxSeg, key, keystream, lawful codec and every "
               "per-segment choice of k distinct shares; sizes_agree / sizes_consistent / offsets_wellformed proved for all "
               "inputs (v1 and v2); the model is tied to the code by comparing every derived number, the header bytes, parsed "
               "tables, block extents, write sequences and the data sections of the primary shares of real uploads.")
@@ -497,14 +498,44 @@ def gen_file(rng, thorough, idx):
 
 
 SECRET = b"c01" + b"\x00" * 13
-COMBOS = [(src, km) for src in ("Data", "FileHandle", "FileName") for km in ("convergent", "random")]
+COMBOS = [(src, km) for src in ("Data", "FileHandle", "FileName", "ChunkLists") for km in ("convergent", "random")]
+PIECE_SPECS = [[], [1], [5, 3], [7, 1, 33], [16], [4096, 17], [51200, 1]]
 
 
-def make_uploadable(upload, source, keymode, data, tag):
-    """(uploadable, cleanup): the same bytes through Data / FileHandle / FileName, convergent or random key"""
+def split_by(d, sizes):
+    """the model's `splitBy`: pieces of the cycling sizes, the rest as one piece"""
+    out, sizes = [], list(sizes)
+    while sizes and sizes[0] != 0 and len(d) > sizes[0]:
+        out.append(d[:sizes[0]])
+        d = d[sizes[0]:]
+        sizes = sizes[1:] + sizes[:1]
+    out.append(d)
+    return out
+
+
+def make_piece_source(upload):
+    class PieceSource(upload.FileHandle):
+        """IUploadable whose read() returns the requested bytes as a list of pieces (sizes cycling through `spec`)"""
+
+        def __init__(self, fh, convergence, spec):
+            upload.FileHandle.__init__(self, fh, convergence)
+            self._spec = spec
+            self.calls = []
+
+        def read(self, length):
+            from twisted.internet import defer
+            self.calls.append((self._filehandle.tell(), length))
+            return defer.succeed(split_by(self._filehandle.read(length), self._spec))
+    return PieceSource
+
+
+def make_uploadable(upload, source, keymode, data, tag, spec=()):
+    """(uploadable, cleanup): the same bytes through Data / FileHandle / FileName / a piece-list source, convergent or random key"""
     import io
     import common
     conv = SECRET if keymode == "convergent" else None
+    if source == "ChunkLists":
+        return make_piece_source(upload)(io.BytesIO(data), conv, list(spec)), None
     if source == "Data":
         return upload.Data(data, convergence=conv), None
     if source == "FileHandle":
@@ -574,7 +605,13 @@ def run_grid(ctx):
                           max_segment_size=max_seg)
             try:
                 c = g.clients[0]
-                u_main, fn_main = make_uploadable(upload, source, keymode, data, "a")
+                spec = mrng.choice(PIECE_SPECS)
+                chunk = mrng.choice([51200, 51200, 7, 64, 1000, 4096])
+                while size // chunk > 200:
+                    chunk *= 8
+                u_main, fn_main = make_uploadable(upload, source, keymode, data, "a", spec)
+                saved_chunk = upload.EncryptAnUploadable.CHUNKSIZE
+                upload.EncryptAnUploadable.CHUNKSIZE = chunk
                 try:
                     res = rt.wait(c.upload(u_main))
                 except Exception as ex:
@@ -582,6 +619,7 @@ def run_grid(ctx):
                                   "upload-failed:%s-key:%s:%s" % (keymode, source, type(ex).__name__), repr(ex)[:300])
                     continue
                 finally:
+                    upload.EncryptAnUploadable.CHUNKSIZE = saved_chunk
                     if fn_main:
                         try:
                             os.unlink(fn_main)
@@ -621,7 +659,11 @@ def run_grid(ctx):
                     if len({len(v) for v in by_num.values()}) != 1:
                         ctx.violation("shares of one file have different lengths", case, "share-lengths-differ")
                     ks = keystream(cap.key, size)
-                    lines.append("shares %d %d %s %s" % (k, max_seg, hx(ks), hx(data)))
+                    if source == "ChunkLists":
+                        lines.append("sharesvia %d %d %d %s %s %s" % (k, max_seg, chunk, hx(ks), hx(data),
+                                                                      ",".join(map(str, spec)) or "-"))
+                    else:
+                        lines.append("shares %d %d %s %s" % (k, max_seg, hx(ks), hx(data)))
                     datastart = struct.unpack(">L", sd0[0x0c:0x10])[0] if hdrlen == 0x24 else struct.unpack(">Q", sd0[0x14:0x1c])[0]
                     prim = [by_num[j][datastart:datastart + enc_nums[2]] for j in range(k) if j in by_num]
                     impl.append("S;" + ",".join(hx(p) for p in prim))
@@ -674,7 +716,7 @@ def run_grid(ctx):
             elif ln.startswith("offsets "):
                 p = m.split(";")
                 m2.append("F;%s;%s" % (p[2], p[3]) if len(p) == 4 else "F;" + m)
-            elif ln.startswith("shares "):
+            elif ln.startswith("shares ") or ln.startswith("sharesvia "):
                 m2.append("S;" + m.split(";")[0])
             else:
                 m2.append("D;" + m)
